@@ -2,12 +2,13 @@ import sys, re, time, os
 import mirsym
 from mirsym import *
 import models
-mirsym.SRC_ROOTS[:] = ['/tmp/probe/slice/nsym', '/tmp/probe/slice/shims/vstd']
+mirsym.SRC_ROOTS[:] = ['/tmp/probe/slice/nsym', '/tmp/probe/slice/shims/vstd', '/tmp/probe/slice/shims/futures', '/tmp/probe/slice/shims/atomic_float']
 text = open('/tmp/probe/slice.mir').read()
 fns = parse_mir(text)
-v = parse_mir(open('/tmp/probe/vstd.mir').read())
-for k, f in v.items():
-    f.name = 'vstd::' + k; fns['vstd::' + k] = f
+for crate in ('vstd', 'futures', 'atomic_float'):
+    v = parse_mir(open('/tmp/probe/%s.mir' % crate).read())
+    for k, f in v.items():
+        f.name = crate + '::' + k; fns[crate + '::' + k] = f
 # layouts from source
 layouts = {'__variants__': set()}
 def scan_src(root):
@@ -15,6 +16,7 @@ def scan_src(root):
         for fn_ in fnames:
             if not fn_.endswith('.rs'): continue
             src = open(os.path.join(dp, fn_)).read()
+            src = re.sub(r'//[^\n]*', '', src)
             for m in re.finditer(r'pub struct (\w+)(?:<[^>]*>)?\s*\{([^}]*)\}', src):
                 fields = [x.split(':')[0].strip().replace('pub ', '') for x in split_top(m.group(2)) if ':' in x]
                 layouts[(m.group(1), None)] = fields
@@ -44,12 +46,12 @@ for m in re.finditer(r'^fn (\S+<impl at [^\n]*?>::deref::__stability)\(\)[^\n]*\
     owner[m.group(1).replace('__stability', '__static_ref_initialize')] = m.group(2)
 ip.static_owner = lambda n: owner.get(n)
 ip.alloc_static = {}
-for crate, txt in (('nsym', text), ('vstd', open('/tmp/probe/vstd.mir').read())):
+for crate, txt in (('nsym', text), ('vstd', open('/tmp/probe/vstd.mir').read()), ('futures', open('/tmp/probe/futures.mir').read())):
     for m in re.finditer(r'^(alloc\d+) \(static: ([^,]+),', txt, re.M):
         nm = m.group(2).strip(); full = ('vstd::' + nm) if crate == 'vstd' else nm
         cands = [n for n in fns if n == full or n.endswith('::' + nm)]
         ip.alloc_static[(crate, m.group(1))] = ([n for n in cands if n.startswith('vstd::') == (crate == 'vstd')] or cands or [full])[0]
-models.install(ip); models.install2(ip); models.install3(ip)
+models.install(ip); models.install2(ip); models.install3(ip); models.install4(ip); models.install5(ip); models.install6(ip); models.install7(ip); models.install8(ip); models.install9(ip)
 entry = sys.argv[1]
 t = time.time()
 orig_run_path = ip.run
